@@ -47,7 +47,8 @@ ASSUMPTIONS = [
     "helpers have no request route and are not driven",
     "fs_step pre-states are built with the real create_file/delete_file/create_folder/delete_folder Python API "
     "(never with restore), then counters, countdowns, durations, access count and health members are overwritten "
-    "with solver values: num_file_creations/deletions >= 0, -1 <= countdown <= duration (unbounded), num_access >= 0",
+    "with solver values: num_file_creations/deletions >= 0, duration >= 0 (unbounded), -1 <= countdown <= duration + 1 "
+    "(a superset of what scan()/restore() and the ticks produce), num_access >= 0",
     "'refused' = any status other than success and no change of the partition, of any item field or of the "
     "counters; 'no-op' = success and no change of the partition",
     "restore addressed to a name that has a live item acts on the live item (repair); the property's 'restoring moves "
@@ -662,9 +663,9 @@ def fs_step(
             c0 >= 0,
             d0 >= 0,
             rd >= 0,
-            rng(rc, -1, rd),
+            rng(rc, -1, rd + 1),
             sd >= 0,
-            rng(sc, -1, sd),
+            rng(sc, -1, sd + 1),
             na >= 0,
         )
     )
